@@ -74,6 +74,11 @@ CFGS = {
     "raw": None,
     "fbank": {"name": "stft", "bank": {"name": "fbank", "num_filts": 5, "sampling_rate": 8000},
               "frame_length_ms": 10, "frame_shift_ms": 5, "frame_style": "centered"},
+    # a short-integration computer (centred, translation > frame shift): ONE computer object processes all the utterances
+    # of an invocation in turn, so whatever an utterance leaves behind in it would make an uninterrupted run differ from a
+    # resumed one
+    "si": {"name": "si", "bank": {"name": "gabor", "scaling_function": "mel", "num_filts": 4, "sampling_rate": 8000},
+           "frame_shift_ms": 2.0},
 }
 STAGES = ["pre", "mid", "post", "buf", "flushed"]
 
@@ -166,7 +171,9 @@ def make_inputs(d, n):
     with open(os.path.join(d, "map"), "w") as mp:
         for i in range(n):
             rs = np.random.RandomState(100 + i)
-            sig = rs.randint(-2000, 2000, size=300 + 37 * i).astype(np.int16)
+            # utterance 1 is only a few samples long: too short to yield a frame at finalisation, which is when a
+            # computer's bookkeeping is most likely to survive into the next utterance it is given
+            sig = rs.randint(-2000, 2000, size=5 if i == 1 else 300 + 37 * i).astype(np.int16)
             if i % 2 == 0:
                 path = os.path.join(raw, "%d.wav" % i)
                 w = wave.open(path, "wb")
@@ -348,7 +355,7 @@ def F(kind, k, stage):
 
 
 def cfg_of(n, alt=False):
-    return ["raw", "fbank"][(n + (1 if alt else 0)) % 2]
+    return ["raw", "fbank", "si"][(n + (1 if alt else 0)) % 3]
 
 
 def random_schedule(r, nfaults=None):
